@@ -79,6 +79,7 @@ type link struct {
 // applyRec is one applied write command as seen by the wrapped CommandApplier.
 type applyRec struct {
 	tag  string
+	req  *pb.RaftCmdRequest
 	resp *pb.RaftCmdResponse
 	err  error
 	step int64
@@ -102,6 +103,7 @@ type node struct {
 	applied  map[uint64][]applyRec
 	tagCount map[string]int
 	respTag  map[*pb.RaftCmdResponse]string
+	innerTag map[any]string // per-request response message (e.g. *pb.PrewriteResponse) -> tag of the command that produced it
 	isLeader map[uint64]bool
 	lostAt   map[uint64]int64 // step at which leadership was last observed lost
 	term     map[uint64]uint64
@@ -158,6 +160,7 @@ type world struct {
 	lastFault time.Duration
 	opIdx     int
 	harvesting bool
+	tbuf       *[]string
 
 	electionTick, heartbeatTick int
 	oldReader                   io.Reader
@@ -295,7 +298,7 @@ func (w *world) openNode(idx int, dir string, inc int, metas []manifest.RegionMe
 	db := NoKV.Open(dbOptions(dir))
 	dbg("open s%d inc%d %.1fms", idx+1, inc, (realNow()-t0)*1000)
 	n = &node{idx: idx, id: uint64(idx + 1), inc: inc, dir: dir, db: db, tick: 100 * time.Millisecond,
-		applied: map[uint64][]applyRec{}, tagCount: map[string]int{}, respTag: map[*pb.RaftCmdResponse]string{},
+		applied: map[uint64][]applyRec{}, tagCount: map[string]int{}, respTag: map[*pb.RaftCmdResponse]string{}, innerTag: map[any]string{},
 		isLeader: map[uint64]bool{}, lostAt: map[uint64]int64{}, term: map[uint64]uint64{}}
 	n.tr = &simTransport{w: w, n: n}
 	n.st = store.NewStoreWithConfig(store.Config{
@@ -456,11 +459,31 @@ func (w *world) recordApply(n *node, req *pb.RaftCmdRequest, resp *pb.RaftCmdRes
 	region := req.GetHeader().GetRegionId()
 	tag := tagOf(req)
 	pos := len(n.applied[region])
-	n.applied[region] = append(n.applied[region], applyRec{tag: tag, resp: resp, err: err, step: w.step})
+	n.applied[region] = append(n.applied[region], applyRec{tag: tag, req: req, resp: resp, err: err, step: w.step})
 	if resp != nil {
 		n.respTag[resp] = tag
+		for _, r := range resp.GetResponses() {
+			switch c := r.GetCmd().(type) {
+			case *pb.Response_Prewrite:
+				n.innerTag[c.Prewrite] = tag
+			case *pb.Response_Commit:
+				n.innerTag[c.Commit] = tag
+			case *pb.Response_BatchRollback:
+				n.innerTag[c.BatchRollback] = tag
+			case *pb.Response_ResolveLock:
+				n.innerTag[c.ResolveLock] = tag
+			case *pb.Response_CheckTxnStatus:
+				n.innerTag[c.CheckTxnStatus] = tag
+			}
+		}
 	}
-	w.res.Trace.Add("apply s%d.%d r%d #%d %s id=%d err=%v", n.id, n.inc, region, pos, tag, req.GetHeader().GetRequestId(), err != nil)
+	if w.tbuf != nil {
+		// C28: the client visits secondary regions in Go map order, so lines are buffered and
+		// sorted per transaction and carry no request id (ids depend on that order).
+		*w.tbuf = append(*w.tbuf, fmt.Sprintf("apply s%d.%d r%d #%d %s err=%v", n.id, n.inc, region, pos, tag, err != nil))
+	} else {
+		w.res.Trace.Add("apply s%d.%d r%d #%d %s id=%d err=%v", n.id, n.inc, region, pos, tag, req.GetHeader().GetRequestId(), err != nil)
+	}
 	w.res.Checks++
 	key := fmt.Sprintf("%d/%s", region, tag)
 	n.tagCount[key]++
@@ -587,6 +610,8 @@ func (w *world) sleepTo(t time.Duration) {
 		w.flushViols()
 	}
 }
+
+func heapPop(w *world) *event { return heap.Pop(&w.h).(*event) }
 
 // runUntil processes every event due up to simulated time t and then advances the clock to t.
 func (w *world) runUntil(t time.Duration) {
